@@ -174,6 +174,10 @@ class PathSym:
     def explore(self, fn, max_paths=10 ** 9, deadline=None):
         out = []
         self.plan = []
+        if deadline is None:
+            # overall budget of the check (set by the dispatcher): running out is "not exhausted" = exit 2, never ok
+            import os
+            deadline = float(os.environ.get("HSVERIF_DEADLINE", "0")) or None
         while True:
             self.begin()
             try:
